@@ -13,7 +13,30 @@ from ..prov import Prov
 from ..facts import rv_str
 from . import edit
 
-FORBIDDEN = r"^std::mem::forget$|^std::mem::ManuallyDrop::<.*>::new$|^std::process::exit$|^std::process::abort$|::leak$|::into_raw$|^std::intrinsics::abort$"
+FORBIDDEN = (r"^std::mem::forget$|^std::mem::ManuallyDrop::<.*>::new$|^std::process::exit$|^std::process::abort$|::leak$|::into_raw$|^std::intrinsics::abort$|"
+             r"^signal_hook::flag::register_conditional_shutdown$|^signal_hook::flag::register_conditional_default$|^signal_hook::low_level::(emulate_default_handler|exit|abort|raise)$|"
+             r"^libc::(exit|_exit|abort|kill|raise)$|^nix::sys::signal::(kill|raise)$|^std::os::unix::process::CommandExt::exec$")
+SELF_TERMINATION = r"register_conditional_(shutdown|default)$|emulate_default_handler$|process::(exit|abort)$|^libc::(exit|_exit|abort|kill|raise)$|signal::(kill|raise)$|low_level::(exit|abort|raise)$"
+
+
+def rule_no_self_termination(ctx, facts, prefix):
+    """nothing the program calls can end the process behind the run's back (between a rename and the
+    lock write, or instead of the clean stop): process::exit/abort, signal-hook's conditional
+    shutdown / default-handler emulation, libc exit/kill/raise."""
+    from ..callgraph import CallGraph, leaf_def
+    cg = CallGraph(facts)
+    parent, leaves = cg.reach(roots=cg.roots)
+    bad = {}
+    for e in leaves:
+        d = leaf_def(e)
+        if re.search(SELF_TERMINATION, d) and d not in bad:
+            bad[d] = e
+    for d, e in sorted(bad.items()):
+        ctx.bad(prefix, "self-termination|%s|%s" % (d, e["body"]),
+                "`%s` can terminate the process in the middle of a run (after files were renamed, before the lock is written; or instead of the clean stop): %s" % (d, CallGraph.fmt_path(cg.path_to(parent, e))),
+                "%s:%s" % (e["body"], e["line"]))
+    if not bad:
+        ctx.ok(prefix, "no self-termination API (process::exit/abort, conditional shutdown, default-handler emulation, kill/raise) among %d reachable external call edges" % len(leaves), "callgraph")
 EXPECTED_ROLES = {"scratch-create": 1, "scratch-write": 3, "scratch-flush": 1, "scratch-sync": 1, "publish": 1,
                   "scratch-unlink": 1, "lock-write": 1}
 
@@ -122,6 +145,7 @@ def run(ctx):
     roles = rule_closed_set(ctx, facts)
     rule_complete_before_publish(ctx, facts)
     rule_no_leak(ctx, facts)
+    rule_no_self_termination(ctx, facts, "C07-R4")
     ctx.assume("POSIX rename(2) atomically replaces the destination; fsync makes the scratch contents durable")
     ctx.assume("async-std's File buffers writes until flush (documented), and sync_all issues fsync")
     ctx.assume("a rename across filesystems fails with EXDEV without touching the destination (then C08 applies)")
